@@ -1386,6 +1386,28 @@ def run_cli_cases(ctx, stream, cases, classify=None, only=None, names_model=Fals
             run = cli_run(c, sc, i)
             inp = {k: c[k] for k in ("input", "ptx", "bpt", "kind") if k in c}
             out.case(stream, inp, ("cli", c["kind"], run["exit"], len(run["files"])))
+            # info yaml and chr_report csv: the model's infoRecord / chromosomesReport (Model/CliPlan.lean) on the in-process result
+            # against what the real CLI wrote
+            if ctx.driver and "ok" in real and run["exit"] == 0:
+                import csv as _csv
+                req = {"id": 0, "kind": "cliplan", "assemblies": [{"key": a["key"], "curated": a["curated"], "scaffolds": a["scaffolds"]} for a in real["ok"]["assemblies"]],
+                       "out": "xx.1.agp", "write_log": True, "prefix": "SUPER_", "stats": real["ok"]["stats"]}
+                m = ctx.driver.batch([req])[0]
+                y = run["yaml"] or {}
+                real_info = {"assemblies": [[k, v.get("manual_breaks"), v.get("manual_joins")] for k, v in (y.get("assemblies") or {}).items()],
+                             "manual_breaks": y.get("manual_breaks"), "manual_joins": y.get("manual_joins"),
+                             "manual_haplotig_removals": y.get("manual_haplotig_removals")}
+                rep = []
+                rp = run["files"].get("xx.1.chr_report.csv")
+                if rp is not None:
+                    rows = list(_csv.reader(rp.read_text().splitlines()))
+                    for r_ in rows[1:]:
+                        rep.append([r_[0], r_[1], r_[2], r_[3] == "true", (r_[4] if r_[4] != "" else None), int(r_[5]), int(r_[6])])
+                mrep = [[x[0], x[1], x[2], x[3], (x[4] if x[4] not in (None, "") else None), x[5], x[6]] for x in m["report"]]
+                real_files = sorted(run["files"])
+                mplan = {"ok": sorted(m["plan"]["ok"])} if "ok" in m["plan"] else m["plan"]
+                out.compare(stream + ":info+report+files", inp, {"info": real_info, "report": rep, "files": {"ok": real_files}},
+                            {"info": m["info"], "report": mrep, "files": mplan}, ("cliplan", len(rep), len(real_files)))
             errs = cli_oracles(c, run, real)
             if only:
                 errs = [e for e in errs if any(w in e for w in only)]
